@@ -80,3 +80,19 @@ func TestRegress_ParseFloat(t *testing.T) {
 		}
 	}
 }
+
+// 1f93aef: an exponent of more digits than an int64 holds is an exponent
+func TestRegress_ParseFloatHugeExponent(t *testing.T) {
+	for _, c := range []struct {
+		s    string
+		want float64
+		n    int
+	}{
+		{"1e99999999999999999999", math.Inf(1), 22}, {"2.5E+9223372036854775808", math.Inf(1), 24}, {"-3e+99999999999999999999", math.Inf(-1), 24},
+		{"1e-99999999999999999999x", 0, 23}, {"0e99999999999999999999", 0, 22}, {"1e+", 1, 1},
+	} {
+		if got, n := strconv.ParseFloat([]byte(c.s)); got != c.want || n != c.n {
+			t.Errorf("ParseFloat(%q) = %v, %d, want %v, %d", c.s, got, n, c.want, c.n)
+		}
+	}
+}
